@@ -27,6 +27,7 @@ type Program struct {
 	byName    map[string]*FuncContract // by types.Func FullName
 	overlay   map[string][]byte
 	litOrd    map[*ast.FuncLit]string
+	closureOf map[types.Object]*Closure
 }
 
 type declRef struct {
@@ -92,7 +93,7 @@ func loadProgram(repo string, contracts map[string]*ContractFile, pkgPaths []str
 		return nil, err
 	}
 	prog := &Program{repo: repo, fset: fset, pkgs: map[string]*packages.Package{}, contracts: contracts, srcs: map[string][]byte{},
-		decls: map[*types.Func]*declRef{}, byName: map[string]*FuncContract{}, overlay: overlay, litOrd: map[*ast.FuncLit]string{}}
+		decls: map[*types.Func]*declRef{}, byName: map[string]*FuncContract{}, overlay: overlay, litOrd: map[*ast.FuncLit]string{}, closureOf: map[types.Object]*Closure{}}
 	var errs []string
 	packages.Visit(pkgs, nil, func(p *packages.Package) {
 		if !strings.HasPrefix(p.PkgPath, modulePath) {
@@ -119,6 +120,44 @@ func loadProgram(repo string, contracts map[string]*ContractFile, pkgPaths []str
 						}
 						return true
 					})
+					// local variables bound (exactly once, syntactically) to a function literal
+					bound := map[types.Object][]*ast.FuncLit{}
+					ast.Inspect(fd, func(nd ast.Node) bool {
+						switch a := nd.(type) {
+						case *ast.AssignStmt:
+							if len(a.Lhs) == len(a.Rhs) {
+								for i, l := range a.Lhs {
+									id, ok1 := l.(*ast.Ident)
+									fl, ok2 := a.Rhs[i].(*ast.FuncLit)
+									if ok1 && ok2 {
+										o := p.TypesInfo.Defs[id]
+										if o == nil {
+											o = p.TypesInfo.Uses[id]
+										}
+										if o != nil {
+											bound[o] = append(bound[o], fl)
+										}
+									}
+								}
+							}
+						case *ast.ValueSpec:
+							for i, id := range a.Names {
+								if i < len(a.Values) {
+									if fl, ok := a.Values[i].(*ast.FuncLit); ok {
+										if o := p.TypesInfo.Defs[id]; o != nil {
+											bound[o] = append(bound[o], fl)
+										}
+									}
+								}
+							}
+						}
+						return true
+					})
+					for o, fls := range bound {
+						if len(fls) == 1 {
+							prog.closureOf[o] = &Closure{Lit: fls[0], Pkg: p, Name: prog.litOrd[fls[0]]}
+						}
+					}
 				}
 			}
 		}
